@@ -524,6 +524,50 @@ def r30_for_map(src, item, ed, opts):
         ed.count("R30")
 
 
+def r32_for_into_iter_rev(src, item, ed, opts):
+    """`for PAT in V.into_iter().rev() { B }` -> `while V.len() > 0 { let PAT = V.pop().unwrap(); B }`:
+    consuming a vector from the back is what the reversed by-value iterator does (without `.rev()`:
+    from the front, `V.remove(0)`); `B` may not
+    `break`/`continue` (for_pop=[{n=<loop ordinal>}])"""
+    loops = nodes_of(item, "loop")
+    for sp in opts.get("for_pop", []):
+        n = loops[sp["n"]] if sp["n"] < len(loops) else None
+        if n is None or n["loop_kind"] != "for":
+            raise LostAnchor(f"for-loop #{sp['n']} of {item['path']}")
+        ex = src.text(*n["expr"]).strip()
+        m = re.fullmatch(r"([A-Za-z_][\w\.]*)\.into_iter\(\)\s*(\.rev\(\))?", ex, re.S)
+        if not m:
+            raise Unsupported(f"R32 expects `V.into_iter()[.rev()]`, found `{ex}`")
+        v = m.group(1)
+        take = f"{v}.pop().unwrap()" if m.group(2) else f"{v}.remove(0)"
+        for mm in item["nodes"]:
+            if mm["kind"] in ("break", "continue") and inside(mm, n["body"]):
+                raise Unsupported("R32: loop body contains break/continue")
+        pat = src.text(*n["pat"])
+        ed.replace(n["range"][0], n["body"][0], f"while {v}.len() > 0 ", "R32")
+        ed.insert(n["body"][0] + 1, f" {sp.get('ghost', '')} let {pat} = {take}; ", "R32", prio=-5)
+        ed.count("R32")
+
+
+def r33_instantiate_generics(src, item, ed, opts):
+    """a generic function is verified at ONE instance of its type parameters
+    (instantiate = {drop_generics=true, params={templates="Vec<(String, String)>"}}): the generic
+    parameter list and where clause are removed and the named parameters get the instance types"""
+    sp = opts.get("instantiate")
+    if not sp:
+        return
+    if "generics" in item:
+        ed.replace(item["generics"][0], item["generics"][1], "", "R33")
+    if "where" in item:
+        ed.replace(item["where"][0], item["where"][1], "", "R33")
+    for pname, newty in sp.get("params", {}).items():
+        ps = [p for p in item["inputs"] if not p.get("self") and p.get("pat") in (pname, "mut" + pname)]
+        if not ps:
+            raise LostAnchor(f"parameter `{pname}` of {item['path']}")
+        ed.replace(ps[0]["ty"][0], ps[0]["ty"][1], newty, "R33")
+    ed.count("R33")
+
+
 def r24_call_shim(src, item, ed, opts):
     """generic named-site shim (covers R5, R6, R8, R11, R17): a call / method call / macro named
     in the sidecar is replaced by a call to a prelude shim whose spec is the std contract.
@@ -553,6 +597,9 @@ def r24_call_shim(src, item, ed, opts):
             c = [n for n in nodes_of(item, "cast") if n["ty"] == sp["ty"]]
         elif kind == "assign":
             c = [n for n in nodes_of(item, "assign") if n["left_text"] == sp["left"].replace(" ", "")]
+        elif kind == "iife":
+            # an immediately-invoked closure `(|| -> T { B })()`
+            c = [n for n in nodes_of(item, "call") if n["func"].startswith("(|") or n["func"].startswith("(move|")]
         else:
             raise Unsupported(f"shim kind {kind}")
         idxs = [sp["n"]] if "n" in sp else list(range(len(c)))
@@ -699,6 +746,8 @@ RULES = {
     "R22": r22_for_enumerate,
     "R27": r27_for_vec,
     "R30": r30_for_map,
+    "R32": r32_for_into_iter_rev,
+    "R32": r32_for_into_iter_rev,
     "R24": r24_call_shim,
 }
 
@@ -750,6 +799,8 @@ def extract_fn(src, spec, unit_rules):
         r28_let_type(src, item, ed, spec)
     if "iter_params" in spec:
         r29_iter_param_to_slice(src, item, ed, spec)
+    if "instantiate" in spec:
+        r33_instantiate_generics(src, item, ed, spec)
     if "R9" in rules:
         r9_visibility(src, item, ed, spec)
 
@@ -1065,6 +1116,74 @@ def extract_arm(src, spec, unit_rules):
         "counts": ed.counts,
         "hash": hashlib.sha256(norm_tokens(raw).encode()).hexdigest()[:16],
     }
+
+
+def extract_closure(src, spec, unit_rules):
+    """R31 closure conversion: the body of the k-th immediately-invoked closure `(|| -> T { B })()` of a
+    function becomes a method `fn NAME(PARAMS) -> T { B }` whose parameters are the closure's captures
+    (named in the sidecar; a missing or mistyped capture does not compile), and the call site becomes a
+    call of that method (an `iife` shim in the enclosing function's entry)."""
+    fn = src.find("fn", spec["path"])
+    calls = [n for n in fn["nodes"] if n["kind"] == "call" and (n["func"].startswith("(|") or n["func"].startswith("(move|"))]
+    k = spec.get("n", 0)
+    if k >= len(calls):
+        raise LostAnchor(f"immediately-invoked closure #{k} of {spec['path']}")
+    call = calls[k]
+    clos = [n for n in fn["nodes"] if n["kind"] == "closure" and call["func_range"][0] <= n["range"][0] and n["range"][1] <= call["func_range"][1]]
+    if not clos or not clos[0]["body_is_block"]:
+        raise Unsupported("R31 expects a block-bodied closure")
+    cl = clos[0]
+    if cl["inputs"]:
+        raise Unsupported("R31 expects a closure without parameters")
+    body = cl["body"]
+    item = dict(fn)
+    item["scope"] = tuple(body)
+    for n in nodes_of(item):
+        if n["kind"] in ("continue", "break"):
+            ok = any(an["kind"] == "loop" and inside(an, body) for an in ancestors(item, n))
+            if not ok:
+                raise Unsupported("R31: closure body transfers control of an outer loop")
+    ed = Edits()
+    for (s0, e0) in src.attrs:
+        if body[0] <= s0 and e0 <= body[1]:
+            ed.replace(s0, e0, "", "R0")
+    rules = list(unit_rules) + list(spec.get("rewrites", []))
+    for rname in rules:
+        if rname in ("R9", "R15", "R16", "R19", "R23"):
+            continue
+        RULES[rname](src, item, ed, spec)
+    if "shims" in spec and "R24" not in rules:
+        r24_call_shim(src, item, ed, spec)
+    loops = nodes_of(item, "loop")
+    for ls in spec.get("loop", []):
+        kk = ls["n"]
+        if kk >= len(loops):
+            raise LostAnchor(f"loop #{kk} of closure #{k} of {spec['path']}")
+        n = loops[kk]
+        if ls.get("before"):
+            ed.insert(n["range"][0], ls["before"].strip() + "\n", "ghost")
+        if ls.get("iter") and n["loop_kind"] == "for":
+            ed.insert(n["expr"][0], ls["iter"] + ": ", "ghost")
+        inv = clause("invariant_except_break", ls.get("invariant_except_break")) + clause("invariant", ls.get("invariant")) + clause("ensures", ls.get("ensures")) + clause("decreases", ls.get("decreases"))
+        if inv:
+            ed.insert(n["body"][0], inv + "\n", "ghost")
+        if ls.get("body_start"):
+            ed.insert(n["body"][0] + 1, "\n" + ls["body_start"].strip() + "\n", "ghost")
+        if ls.get("body_end"):
+            ed.insert(n["body"][1] - 1, "\n" + ls["body_end"].strip() + "\n", "ghost")
+        if ls.get("after"):
+            ed.insert(n["range"][1], "\n" + ls["after"].strip() + "\n", "ghost")
+    ed.count("R31")
+    inner = ed.apply(src, body[0] + 1, body[1] - 1)
+    contract = clause("requires", spec.get("requires")) + clause("ensures", spec.get("ensures"))
+    ret = spec.get("ret", "r")
+    text = (
+        f"pub fn {spec['name']}({spec['params']}) -> ({ret}: {spec['ret_ty']})" + contract + "\n{\n"
+        + (spec.get("body_start", "").strip() + "\n" if spec.get("body_start") else "")
+        + inner + "\n}\n"
+    )
+    raw = src.text(body[0], body[1])
+    return {"item": {"name": spec["name"], "range": list(body)}, "text": text, "raw": raw, "counts": ed.counts, "hash": hashlib.sha256(norm_tokens(raw).encode()).hexdigest()[:16]}
 
 
 def lift_self(text, spec):
